@@ -47,7 +47,7 @@ def gen_procs(rng):
     P = rng.sample(G.PARAM_POOL, nP)
     out = []
     for _ in range(rng.randint(2, 7)):
-        rate = G.gen_rate(rng, S, P, [], ["lin", "mass", "sat", "exp", "const"])
+        rate = G.gen_rate(rng, S, P, [], ["lin", "mass", "sat", "exp", "const", "sum", "dif"])
         if out and rng.random() < 0.35:
             rate = rng.choice(out)[3]      # processes driven by one rate: may equivalently be entered as ONE multi-transition Event
         tt = rng.choice(["T", "T", "B", "D"]) if nS > 1 else rng.choice(["B", "D"])
